@@ -78,6 +78,9 @@ type Script struct {
 	reqDone    chan struct{}
 	BodyCloses int
 	Calls      int
+	// RespContentLength, if > 0, is announced as the response's Content-Length
+	// (whatever the body really holds).
+	RespContentLength int64
 }
 
 func NewScript(status int, header http.Header, body io.Reader, trailer http.Header) *Script {
@@ -186,7 +189,7 @@ func (s *Script) Do(req *http.Request) (*http.Response, error) {
 		ProtoMinor:    2 - major,
 		Header:        h,
 		Body:          &scriptBody{s: s, r: s.Body},
-		ContentLength: -1,
+		ContentLength: s.respContentLength(h),
 		Trailer:       tr,
 		Request:       req,
 	}, nil
@@ -343,4 +346,14 @@ func Serve(h http.Handler, method, path string, header http.Header, body io.Read
 	}
 	rec.HeaderAtEnd = rw.header.Clone()
 	return rec
+}
+
+// respContentLength announces RespContentLength (if set) the way a server
+// with a fixed-size body would: Response.ContentLength plus the header.
+func (s *Script) respContentLength(h http.Header) int64 {
+	if s.RespContentLength <= 0 {
+		return -1
+	}
+	h.Set("Content-Length", fmt.Sprint(s.RespContentLength))
+	return s.RespContentLength
 }
